@@ -1,6 +1,8 @@
 (* The per-storage-class plumbing of src/lib.rs that Model/Storages.v transcribes (StF: identity conversion, constants -0.0 / +0.0,
    Float::powi; StZ: T = Ratio<V>, value = to_integer (truncation), powi by recip + pow for the big integers; StQ: identity,
-   recip + pow; StC: conversion = norm, value = (x, 0)), pinned as normalised token text.  Gen/StorageSrc.v is regenerated from
+   recip + pow; StC: conversion = norm, value = (x, 0)) and of the unit! macro of src/unit.rs (how coefficient() / constant() are built from
+   the table expressions for each storage class, the @coefficient / @constant arms with the -0.0 / +0.0 identity constants, what the
+   public arm forwards), pinned as normalised token text.  Gen/StorageSrc.v is regenerated from
    src/lib.rs on every run; any edit of these bodies has to be reflected in Model/Storages.v and here. *)
 From Coq Require Import List String.
 From UomV Require Import Gen.StorageSrc.
@@ -38,8 +40,34 @@ Definition expected_storage : list (string * string * string * string) := [
   ("Complex", "ConversionFactor<V>forVV", "fn value(self)->V", "V::new(self,0.0)");
   ("default", "traitConversion<V>", "fn coefficient", "<Self::TasOne>::one()");
   ("default", "traitConversion<V>", "fn constant", "<Self::TasZero>::zero()");
-  ("default", "traitConversion<V>", "fn conversion", "Self::coefficient()")
+  ("default", "traitConversion<V>", "fn conversion", "Self::coefficient()");
+  ("unit!:Float", "", "type T", "V");
+  ("unit!:Float", "", "fn coefficient", "unit!(@coefficient$($conversion),+)");
+  ("unit!:Float", "", "fn constant", "unit!(@constantop$($conversion),+)");
+  ("unit!:PrimInt,BigInt", "", "type T", "Ratio<V>");
+  ("unit!:PrimInt,BigInt", "", "fn from_f64", "<TasFromPrimitive>::from_f64(value).unwrap()");
+  ("unit!:PrimInt,BigInt", "", "type T", "T");
+  ("unit!:PrimInt,BigInt", "", "fn coefficient", "from_f64(unit!(@coefficient$($conversion),+))");
+  ("unit!:PrimInt,BigInt", "", "fn constant", "from_f64(unit!(@constantop$($conversion),+))");
+  ("unit!:BigUint", "", "type T", "Ratio<V>");
+  ("unit!:BigUint", "", "fn from_f64", "useFromPrimitive;letc=Ratio::<BigInt>::from_f64(value).unwrap();T::new(c.numer().to_biguint().unwrap(),c.denom().to_biguint().unwrap())");
+  ("unit!:BigUint", "", "type T", "T");
+  ("unit!:BigUint", "", "fn coefficient", "from_f64(unit!(@coefficient$($conversion),+))");
+  ("unit!:BigUint", "", "fn constant", "from_f64(unit!(@constantop$($conversion),+))");
+  ("unit!:Ratio", "", "fn from_f64", "<VasFromPrimitive>::from_f64(value).unwrap()");
+  ("unit!:Ratio", "", "type T", "V");
+  ("unit!:Ratio", "", "fn coefficient", "from_f64(unit!(@coefficient$($conversion),+))");
+  ("unit!:Ratio", "", "fn constant", "from_f64(unit!(@constantop$($conversion),+))");
+  ("unit!:Complex", "", "type T", "VV");
+  ("unit!:Complex", "", "fn coefficient", "unit!(@coefficient$($conversion),+)");
+  ("unit!:Complex", "", "fn constant", "unit!(@constantop$($conversion),+)");
+  ("unit!:public arm", "system:$system:path;quantity:$quantity:path;$($(#[$unit_attr:meta])*@$unit:ident:$($conversion:expr),+;$abbreviation:expr,$singular:expr,$plural:expr;)+", "=>", "use$systemas__system;use$quantityas__quantity;use__quantity::{Conversion,Unit};unit!(@units$($(#[$unit_attr])*@$unit:$($conversion),+;$abbreviation,$singular,$plural;)+);");
+  ("unit!:arm", "@coefficient$factor:expr,$const:expr", "=>", "#[allow(clippy::eq_op)]{$factor}");
+  ("unit!:arm", "@coefficient$factor:expr", "=>", "#[allow(clippy::eq_op)]{$factor}");
+  ("unit!:arm", "@constant$op:ident$factor:expr,$const:expr", "=>", "$const");
+  ("unit!:arm", "@constant$op:ident$factor:expr", "=>", "match$op{ConstantOp::Add=>-0.0,ConstantOp::Sub=>0.0,}")
 ].
+
 
 Definition row_eqb (a b : string * string * string * string) : bool :=
   let '(a1, a2, a3, a4) := a in let '(b1, b2, b3, b4) := b in
